@@ -10,7 +10,7 @@ from trie.exceptions import NodeOverrideError  # noqa: E402
 from eth_hash.auto import keccak  # noqa: E402
 
 ID = "C12"
-LEAN_IMPORTS = ["PyTrie.Props.C12", "PyTrie.Props.RawLevel"]
+LEAN_IMPORTS = ["PyTrie.Props.C12", "PyTrie.Props.RawLevel", "PyTrie.Props.NonVacuity"]
 THEOREMS = [
     "PyTrie.Props.C12.canon_run",
     "PyTrie.Props.C12.get_step",
@@ -31,6 +31,10 @@ THEOREMS = [
     "PyTrie.Bin.keys_prefix_free",
     "PyTrie.Props.Raw.bin_set_refines",
     "PyTrie.Props.Raw.bin_set_blank",
+    "PyTrie.Props.NonVacuity.bin_set_witness",
+    "PyTrie.Props.NonVacuity.bt_allStored",
+    "PyTrie.Props.NonVacuity.bt_ncOp",
+    "PyTrie.Props.NonVacuity.bt_ncOp2",
 ]
 RULE = ("histories of set / delete / delete_subtrie (method and dict syntax) over fixed-length and variable-length key pools "
         "with prefix-related keys, keys differing at every bit position of a byte, repeated values; after every call the outcome "
